@@ -20,7 +20,9 @@ CONSTANTS D, P1, P2, N1, N2,
           Disp,        \* mesh level disparity; 0 encodes infinity
           TruncMark,   \* the `truncate` flag of refine() (truncated-basis marking neighbourhood)
           MaxCalls,    \* bound on the number of refine calls
-          MarkCap,     \* a call marks at most MarkCap cells in total, or one whole level (0 = all subsets)
+          MarkCap,     \* a call marks at most MarkCap cells in total, or one whole level (0 = all subsets;
+                       \* 90 = an interval of the active cells of one level, D = 1;
+                       \* 91 = the same chosen by RandomElement, one successor per state, for -simulate)
           DoEmit
 
 VARIABLES active, deact, actfun, deactfun,   \* per level (index l+1): sets of tuples
@@ -130,14 +132,18 @@ RefineResult(m0) ==
   IN [L |-> Lnew, m |-> m, active |-> act1, deact |-> dea1, actfun |-> fin.af, deactfun |-> fin.df]
 
 \* admissible user marks: per level a set of currently active cells, not all empty, levels <= MaxLev-2
+Interval(S, a, b) == {c \in S : a <= c[1] /\ c[1] <= b}             \* 1-D: contiguous run of cells (by index)
 MarkSets(l) ==
   IF l > MaxLev - 2 THEN {{}}
   ELSE IF MarkCap = 0 THEN SUBSET active[l + 1]
+  ELSE IF MarkCap = 90 THEN         \* (cfg files cannot hold negative numbers: 90 encodes this mode) D = 1 only: intervals of active cells of ONE level (adaptive refinement towards a region)
+       {{}} \cup {Interval(active[l + 1], a[1], b[1]) : a \in active[l + 1], b \in active[l + 1]}
   ELSE {S \in SUBSET active[l + 1] : Cardinality(S) <= MarkCap} \cup {active[l + 1]}
 
 TotalOK(m) ==
   /\ \E i \in 1..MaxLev : m[i] # {}
-  /\ MarkCap > 0 =>
+  /\ MarkCap = 90 => Cardinality({i \in 1..MaxLev : m[i] # {}}) = 1
+  /\ (MarkCap > 0 /\ MarkCap < 90) =>
        \/ FoldLeft(LAMBDA s, i : s + Cardinality(m[i]), 0, [i \in 1..MaxLev |-> i]) <= MarkCap
        \/ \E i \in 1..MaxLev : m[i] = active[i] /\ \A k \in 1..MaxLev : k # i => m[k] = {}
 
@@ -153,8 +159,19 @@ Refine ==
                          LET m == <<s0, {}>> IN TotalOK(m) /\ Apply(m)
      ELSE IF MaxLev = 3 THEN \E s0 \in MarkSets(0), s1 \in MarkSets(1) :
                          LET m == <<s0, s1, {}>> IN TotalOK(m) /\ Apply(m)
-     ELSE \E s0 \in MarkSets(0), s1 \in MarkSets(1), s2 \in MarkSets(2) :
+     ELSE IF MaxLev = 4 THEN \E s0 \in MarkSets(0), s1 \in MarkSets(1), s2 \in MarkSets(2) :
                          LET m == <<s0, s1, s2, {}>> IN TotalOK(m) /\ Apply(m)
+     ELSE IF MarkCap = 91 THEN       \* random deep histories (-simulate): ONE successor per state, chosen with RandomElement
+          \* (bound through singleton sets so that every RandomElement is evaluated exactly once)
+          LET lvls == {l \in 0..(MaxLev - 2) : active[l + 1] # {}}
+              deep == CHOOSE l \in lvls : \A q \in lvls : q <= l
+          IN \E coin \in {RandomElement(1..3)} :
+             \E lv \in {IF coin = 1 THEN RandomElement(lvls) ELSE RandomElement({l \in lvls : l >= deep - 1})} :
+             \E sl \in {RandomElement({Interval(active[lv + 1], x[1], y[1]) : x \in active[lv + 1], y \in active[lv + 1]} \ {{}})} :
+                LET m == [i \in 1..MaxLev |-> IF i = lv + 1 THEN sl ELSE {}] IN Apply(m)
+     ELSE \* deeper hierarchies: one marked level per call
+          \E lv \in 0..(MaxLev - 2) : \E sl \in MarkSets(lv) :
+                         LET m == [i \in 1..MaxLev |-> IF i = lv + 1 THEN sl ELSE {}] IN TotalOK(m) /\ Apply(m)
 
 Init ==
   /\ active   = [i \in 1..MaxLev |-> IF i = 1 THEN Cells(0) ELSE {}]
